@@ -119,10 +119,6 @@ package proxy
 //@ spec trim(s string) string
 //@ invariant canon("Connection") == "Connection" && canon("X-Forwarded-For") == "X-Forwarded-For"
 //@ axiom (b int) trim(tok("", b)) == ""
-//@ extern (net/http.Header).Get
-//@   pure reads MV:map[string][]string, MD:map[string][]string, E:string
-//@   ensures (has(h, canon(key)) && len(h[canon(key)]) > 0) ==> result == h[canon(key)][0]
-//@   ensures !has(h, canon(key)) ==> result == ""
 //@ extern (net/http.Header).Del
 //@   modifies MV:map[string][]string, MD:map[string][]string
 //@   ensures !has(h, canon(key)) && forallT(k, string, k != canon(key) ==> (has(h, k) == old(has(h, k)) && h[k] == old(h[k])))
@@ -150,25 +146,27 @@ package proxy
 
 //@ define nm(v string, b int) string = canon(trim(tok(v, b)))
 //@ define named(v string, b int) bool = trim(tok(v, b)) != "" && nm(v, b) != "X-Forwarded-For"
+//@ define CV() []string = old(r.Header["Connection"])
+//@ define valueDone(v string, n int) bool = forall(b, 0, n, named(v, b) ==> !has(outreq.Header, nm(v, b)))
+//@ define outreqOK() bool = outreq != nil && outreq != r && outreq.Header != nil && r.Header == old(r.Header) && (copiedHeaders || outreq.Header == r.Header) && (copiedHeaders ==> outreq.Header != r.Header)
+//@ define clientUntouched() bool = forallT(k, string, has(r.Header, k) == old(has(r.Header, k)) && r.Header[k] == old(r.Header[k]))
 //@ func createUpstreamRequest
 //@   requires r != nil && r.Header != nil
 //@   modifies MV:map[string][]string, MD:map[string][]string, Request.Header, Request.Body
 //@   ensures [fresh_request] result0 != nil && result0 != r && result0.Header != nil
 //@   ensures [hop_removed] forall(j, 0, len(hopHeaders), !has(result0.Header, hopHeaders[j]))
-//@   ensures [connection_first_value] (old(has(r.Header, "Connection")) && len(old(r.Header["Connection"])) > 0) ==> forall(b, 0, ntok(old(r.Header["Connection"][0])), named(old(r.Header["Connection"][0]), b) ==> !has(result0.Header, nm(old(r.Header["Connection"][0]), b)))
-//@   ensures [connection_all_values] old(has(r.Header, "Connection")) ==> forall(a, 0, len(old(r.Header["Connection"])), forall(b, 0, ntok(old(r.Header["Connection"][a])), named(old(r.Header["Connection"][a]), b) ==> !has(result0.Header, nm(old(r.Header["Connection"][a]), b))))
+//@   ensures [connection_all_values] forall(a, 0, len(old(r.Header["Connection"])), forall(b, 0, ntok(old(r.Header["Connection"])[a]), named(old(r.Header["Connection"])[a], b) ==> !has(result0.Header, nm(old(r.Header["Connection"])[a], b))))
 //@   ensures [client_headers_untouched] r.Header == old(r.Header) && forallT(k, string, k != "X-Forwarded-For" ==> (has(r.Header, k) == old(has(r.Header, k)) && r.Header[k] == old(r.Header[k])))
-//@   loop 1 invariant outreq != nil && outreq != r && outreq.Header != nil && r.Header == old(r.Header)
-//@   loop 1 invariant 0 <= #i && #i <= ntok(c) && forall(b, 0, #i, named(c, b) ==> !has(outreq.Header, nm(c, b)))
-//@   loop 1 invariant copiedHeaders || outreq.Header == r.Header
-//@   loop 1 invariant copiedHeaders ==> outreq.Header != r.Header
-//@   loop 1 invariant forallT(k, string, has(r.Header, k) == old(has(r.Header, k)) && r.Header[k] == old(r.Header[k]))
-//@   loop 2 invariant 0 <= #i && #i <= len(hopHeaders) && outreq != nil && outreq != r && outreq.Header != nil && r.Header == old(r.Header)
-//@   loop 2 invariant forall(j, 0, #i, !has(outreq.Header, hopHeaders[j]))
-//@   loop 2 invariant forall(b, 0, ntok(c), named(c, b) ==> !has(outreq.Header, nm(c, b)))
-//@   loop 2 invariant copiedHeaders || outreq.Header == r.Header
-//@   loop 2 invariant copiedHeaders ==> outreq.Header != r.Header
-//@   loop 2 invariant forallT(k, string, has(r.Header, k) == old(has(r.Header, k)) && r.Header[k] == old(r.Header[k]))
+//@   loop 1 invariant outreqOK() && clientUntouched()
+//@   loop 1 invariant 0 <= #i && #i <= len(CV())
+//@   loop 1 invariant [values_done] forall(a, 0, #i, forall(b, 0, ntok(CV()[a]), named(CV()[a], b) ==> !has(outreq.Header, nm(CV()[a], b))))
+//@   loop 2 invariant outreqOK() && clientUntouched()
+//@   loop 2 invariant 1 <= #i1 && #i1 <= len(CV()) && c == CV()[#i1 - 1]
+//@   loop 2 invariant 0 <= #i && #i <= ntok(c) && valueDone(c, #i)
+//@   loop 2 invariant [earlier_values_done] forall(a, 0, #i1 - 1, forall(b, 0, ntok(CV()[a]), named(CV()[a], b) ==> !has(outreq.Header, nm(CV()[a], b))))
+//@   loop 3 invariant 0 <= #i && #i <= len(hopHeaders) && outreqOK() && clientUntouched()
+//@   loop 3 invariant forall(j, 0, #i, !has(outreq.Header, hopHeaders[j]))
+//@   loop 3 invariant [all_values_done] forall(a, 0, len(CV()), forall(b, 0, ntok(CV()[a]), named(CV()[a], b) ==> !has(outreq.Header, nm(CV()[a], b))))
 
 //@ unit header_rules props=C04 filter=`proxy\.mutateHeadersByRules$`
 //@ spec canon(s string) string
